@@ -42,8 +42,8 @@ def fmtOut (s : St) : Out → String
     let st := match s.mods[m]? with | some md => stLetter md.state | none => "?"
     s!"INVOKE {cb.name} {handleOf s m}:{st}" ++ String.join (evts.map fun e => " " ++ fmtEvt s e)
   | .free p => s!"free p{p}"
-  | .close (.fd k) => s!"close fd:{k}"
-  | .close (.dup k) => s!"close dup:{k}"
+  | .close (.fd k) => if k ≥ 100 then s!"close dup:{k - 100}" else s!"close fd:{k}"
+  | .close (.dup k) => s!"close dup:{k % 100}"
   | .close .pipeR => "close pipe-r"
   | .close .pipeW => "close pipe-w"
   | .note t => t
@@ -112,6 +112,11 @@ def parse (s : St) (line : String) : Except String (Option Op) :=
     let m ← h? h
     match idNat 'p' p with | some p => pure (some (.publish m (if t == "-" then none else some t) p (af == "1"))) | none => .error "bad-op"
   | ["pill", h, r] => do let m ← h? h; let r ← h? r; pure (some (.pill m r))
+  | ["burst", h, r, p, af, n] => do
+    let m ← h? h; let r ← h? r
+    match idNat 'p' p, n.toNat? with
+    | some p, some n => if p + n ≥ 16384 then .error "bad-op" else pure (some (.burst m r p (af == "1") n))
+    | _, _ => .error "bad-op"
   | ["sub", h, t, pr, os, u] => do
     let m ← h? h
     let (p, bits) := prioOf pr
@@ -124,8 +129,10 @@ def parse (s : St) (line : String) : Except String (Option Op) :=
       let (p, bits) := prioOf fl
       -- fd sources accept no priority or HIGH only (parameter guard), and are forced HIGH
       let ok := p.isNone || (bits == 1 && p == some .high)
+      -- the regular files of the pool are only offered to RUNNING modules (both sides refuse the line otherwise)
+      if k ≥ 6 && !stateIs s m .running then .error "bad-op" else
       pure (some (.regSrc m ok { kind := .fd, owner := m, key := k, prio := .high, oneshot := fl.contains 'o',
-                                 autoclose := fl.contains 'a', userptr := u } bits))
+                                 autoclose := fl.contains 'a', dup := fl.contains 'd', userptr := u } bits))
     | _, _ => .error "bad-op"
   | ["dereg_fd", h, f] => do
     let m ← h? h
@@ -142,6 +149,7 @@ def parse (s : St) (line : String) : Except String (Option Op) :=
     let m ← h? h
     match ns.toNat? with | some ns => pure (some (.deregSrc m (ns > 0) .tmr ns)) | none => .error "bad-op"
   | ["srclen", h] => do let m ← h? h; pure (some (.srcLen m))
+  | ["unref", h] => do let m ← h? h; pure (some (.unref m))
   | ["make_ready", _] => .ok none
   | ["drain", _] => .ok none
   | ["errno", e] => match e.toNat? with | some e => .ok (some (.errno e)) | none => .error "bad-op"
@@ -186,6 +194,12 @@ def stepLine (c : Cfg) (line : String) : Cfg × List String :=
     match Driver.words line with
     | [_, p, t] => ({ c with st := { c.st with rx := (p, t) :: c.st.rx } }, [])
     | _ => (c, ["bad-op"])
+  else if line == "leakcheck" then
+    -- inside a callback the line ends the body (the check itself is the harness's business)
+    if c.stack.isEmpty then (c, []) else
+      let c' := step c (.ret true)
+      let lines := c'.st.out.flatMap fun o => match o with | .ret _ => [fmtOut c'.st o, dump c'.st] | _ => [fmtOut c'.st o]
+      ({ c' with st := { c'.st with out := [] } }, lines)
   else
   match parseLine c.st line with
   | .error e => (c, [e])
@@ -207,27 +221,37 @@ partial def drain (c : Cfg) (acc : List String) : Cfg × List String :=
   | [] => (c, acc)
   | _ => let (c', o) := stepLine c "ret 1"; drain c' (acc ++ o)
 
+/-- end of a script: pending callbacks return; then module objects nobody references any more are destroyed
+(`leak`: the script ended with the harness's leak check, which drops every remaining user reference once the
+context is gone) -/
+def finish (c : Cfg) (leak : Bool) : List String :=
+  let (c', o) := drain c []
+  let s := { c'.st with out := [] }
+  let s' := reapZombies s (leak && s.ctx.isNone)
+  o ++ s'.out.map (fmtOut s')
+
 def run : IO Unit := do
   let stdin ← IO.getStdin
   let stdout ← IO.getStdout
   let lines ← Driver.readLines stdin #[]
   let mut c : Cfg := {}
   let mut started := false
+  let mut leak := false
   for line in lines do
     if line.startsWith "# " then
       if started then
-        let (_, o) := drain c []
-        for x in o do stdout.putStrLn x
+        for x in finish c leak do stdout.putStrLn x
       c := {}
+      leak := false
       started := true
       stdout.putStrLn s!"## {(line.drop 2).toString}"
     else
+      if line == "leakcheck" then leak := true
       let (c', out) := stepLine c line
       c := c'
       for o in out do stdout.putStrLn o
   if started then
-    let (_, o) := drain c []
-    for x in o do stdout.putStrLn x
+    for x in finish c leak do stdout.putStrLn x
   stdout.flush
 
 end Driver.Core
